@@ -405,3 +405,84 @@ def call_driver(case, api):
     e = enc.enc
     return {"id": case["id"], "obs": {"out": str(out), "this": e(T), "linked": e(linked), "inst": e(inst), "alen": e(alen),
                                       "a0": e(a0), "a1": e(a1), "pa": e(pa), "pb": e(pb), "length": e(ln), "name": e(nm)}}
+
+
+# ---- Part C: the KIND of the this-value x every call form that takes an explicit this x function kind ------------
+# cell = {id, form: "tv", via, kind, ret: <this-value kind>}.  The probe function stores what it saw in PR (array
+# callbacks do not hand the callback's result back); a native probe (Object.prototype.toString) answers with the
+# class of its this.  `absent` = the this argument is not written at all.
+TV_VALUES = {"obj": "x1", "arr": "ra", "fn": "rf", "num": "3", "str": "'a'", "true": "true", "zero": "0", "negzero": "-0",
+             "empty": "''", "false": "false", "nan": "NaN", "null": "null", "undef": "undefined"}
+TV_BODY = "PR = [this, arguments.length, arguments[0], arguments[1], a, b, typeof this]; return PR;"
+TV_KIND = {
+    "decl": "function fd(a, b, c){ %s } var f = fd;" % TV_BODY,
+    "expr": "var fe = function(a, b, c){ %s }; var f = fe;" % TV_BODY,
+    "method": "var mo = {f(a, b, c){ %s }}; var f = mo.f;" % TV_BODY,
+    "getter": "var gh = {get f(){ PR = [this, arguments.length, arguments[0], arguments[1], undefined, undefined, typeof this];"
+              " return PR; }}; var f = Object.getOwnPropertyDescriptor(gh, 'f').get;",
+    "arrow": "var host = {mk: function(){ return (a, b, c) => { PR = [this, arguments.length, arguments[0], arguments[1], a, b,"
+             " typeof this]; return PR; }; }}; var f = host.mk(7, 8);",
+    "bound": "function fd(a, b, c){ %s } var f = fd.bind(bt, 5, 6);" % TV_BODY,
+    "native": "var f = Object.prototype.toString;",
+}
+# via -> (call with the this-value TV, the same call with the this argument not written; None = no such call)
+TV_CALL = {
+    "call": ("f.call(TV, 1, 2)", "f.call()"), "apply": ("f.apply(TV, [1, 2])", "f.apply()"),
+    "bind": ("f.bind(TV)(1, 2)", "f.bind()(1, 2)"),
+    "bindcall": ("f.bind(TV).call(x2, 1, 2)", "f.bind().call(x2, 1, 2)"),
+    "bindmethod": ("(recv.g = f.bind(TV), recv.g(1, 2))", "(recv.g = f.bind(), recv.g(1, 2))"),
+    "callcall": ("f.call.call(f, TV, 1, 2)", "f.call.call(f)"), "callapply": ("f.call.apply(f, [TV, 1, 2])", "f.call.apply(f, [])"),
+    "map": ("[4].map(f, TV)[0]", "[4].map(f)[0]"), "filter": ("[4].filter(f, TV)", "[4].filter(f)"),
+    "forEach": ("[4].forEach(f, TV)", "[4].forEach(f)"), "find": ("[4].find(f, TV)", "[4].find(f)"),
+    "findIndex": ("[4].findIndex(f, TV)", "[4].findIndex(f)"), "some": ("[4].some(f, TV)", "[4].some(f)"),
+    "every": ("[4].every(f, TV)", "[4].every(f)"),
+    "reduce": (None, "[4, 5].reduce(f)"), "reduceRight": (None, "[4, 5].reduceRight(f)"), "sort": (None, "[4, 5].sort(f)"),
+    "primrecv": ("(Object.prototype.pm = f, TV.pm(1, 2))", None),
+    "primget": ("(Object.defineProperty(Object.prototype, 'pg', {get: f, enumerable: false, configurable: true}), TV.pg)", None),
+}
+# forms whose value is the callback's own result (needed for a native probe, which cannot store into PR)
+TV_RESULT = ("call", "apply", "bind", "bindcall", "bindmethod", "callcall", "callapply", "map", "primrecv", "primget")
+
+
+def tv_this(v, V, enc):
+    import math
+    if isinstance(v, float) and v == 0 and math.copysign(1.0, v) < 0:
+        return "n-0"
+    return enc.enc(v)
+
+
+def tv_driver(case, api):
+    from microjs import values as V
+    via, kind, tk = case["via"], case["kind"], case["ret"]
+    ctx = api.new_context(time_limit=5.0)
+    enc = Enc(V)
+    got = []
+    ctx.set("__reg", lambda *a: (enc.register(["recv", "x1", "x2", "bt", "host", "ra", "rf"], a), None)[1])
+    ctx.set("__emit", lambda *a: (got.append(a), None)[1])
+    absent = tk == "absent"
+    call = TV_CALL[via][1 if absent else 0]
+    if call is None:
+        raise ValueError("no call form %s with this-value kind %s" % (via, tk))
+    src = (CLS + "var bt = {tag: 'bt'}; var x1 = {tag: 'x1'}; var x2 = {tag: 'x2'}; var host; var recv = {}; var ra = [9];"
+           " var rf = function(){}; var PR;\n" + ("" if absent else "var TV = %s;\n" % TV_VALUES[tk]) + TV_KIND[kind] + """
+    __reg(recv, x1, x2, bt, host, ra, rf);
+    var R; var out = 'ok';
+    try { R = %s; } catch (e) { out = '!' + __cls(e); }
+    var ran = PR !== undefined;
+    var P = ran ? PR : [undefined, undefined, undefined, undefined, undefined, undefined, undefined];
+    __emit(out, ran, P[0], P[6], P[1], P[2], P[3], P[4], P[5], R);
+    """ % call)
+    o = api.eval_outcome(ctx, src + "'done'", wall=20.0, cap=2_000_000)
+    if o["o"] == "host":                      # a foreign Python exception escaped from the engine: class only
+        return {"id": case["id"], "obs": {"out": "host:%s" % o.get("type")}}
+    if outcome_str(o) != "done" or len(got) != 1:
+        return {"id": case["id"], "obs": {"out": "fail:" + outcome_str(o)}}
+    out, ran, T, tt, alen, a0, a1, pa, pb, R = got[0]
+    e = enc.enc
+    obs = {"out": str(out), "ran": e(ran), "this": tv_this(T, V, enc), "ttype": e(tt), "alen": e(alen), "a0": e(a0), "a1": e(a1),
+           "pa": e(pa), "pb": e(pb), "cls": e(R) if (kind == "native" and via in TV_RESULT) else "-"}
+    return {"id": case["id"], "obs": obs}
+
+
+def cell_driver(case, api):
+    return tv_driver(case, api) if case["form"] == "tv" else call_driver(case, api)
